@@ -164,7 +164,7 @@ impl Default for W {
             max_msgs: vec![1, 2, 3, 10, 1000],
             burst_kinds: vec![0, 1, 2, 3, 4],
             burst_n: (17, 40),
-            adv_ms: vec![1, 100, 5_000, 9_950, 10_200, 12_300, 30_000],
+            adv_ms: vec![1, 37, 64, 100, 5_000, 9_950, 10_200, 12_300, 30_000],
             payload_rich: false,
             big_payload: 1,
             push_variants: vec![0],
